@@ -12,6 +12,7 @@ MC_BaseCalls == <<
   >>
 MC_AllNames == {<<"s">>, <<"t">>, <<"x", 0>>, <<"x", 1>>}
 MC_En == {"SBin", "SBinLit", "Fn", "VFn", "VBinLit", "Sum", "Norm", "Dot", "Index"}
+MC_ObjCands == {}
 MC_Stages == <<>>
 MC_FinalEn == {}
 MC_ScalarLits == {LitS("float", Q(1, 2)), LitS("int", Q(-1, 1)), LitS("int", Q(2, 1)), LitS("float", Q(3, 2)), LitS("float", Q(-1, 2)), LitS("int", Q(3, 1)), LitS("int", Q(1, 1))}
